@@ -18,7 +18,7 @@ from .. import core
 
 PROP = 'C19'
 
-EVENTS = ['e', 'f']
+EVENTS = ['next', 'f']      # 'next': an event name that begins with the letters of the 'on_' prefix
 SENDERS = ['A', 'B']
 FILTERS = [None, 'A', 'B']
 LABELS = ['c0', 'c1', 'cL']          # cL is registered with last=True
